@@ -815,8 +815,7 @@ func (sd *SpecAnalyser) findAddedEndpoints() {
 func (sd *SpecAnalyser) findDeletedEndpoints() {
 	for eachURLMethod, operation1 := range sd.urlMethods1 {
 		code := DeletedEndpoint
-		if (operation1.ParentPathItem.Options != nil && operation1.ParentPathItem.Options.Deprecated) ||
-			(operation1.Operation.Deprecated) {
+		if operation1.Operation.Deprecated {
 			code = DeletedDeprecatedEndpoint
 		}
 		if _, ok := sd.urlMethods2[eachURLMethod]; !ok {
